@@ -52,7 +52,7 @@ class G:
         if k < 0.84:
             return "[" + ", ".join(self.expr(2) for _ in range(self.r.randint(0, 3))) + "]"
         if k < 0.89:
-            return "{" + ", ".join("%s: %s" % (self.ch(KEYS), self.expr(2)) for _ in range(self.r.randint(0, 3))) + "}"
+            return "({" + ", ".join("%s: %s" % (self.ch(KEYS), self.expr(2)) for _ in range(self.r.randint(0, 3))) + "})"
         if k < 0.93:
             return "/" + self.ch(REGEXES) + "/"
         return "(" + self.expr(1) + ")"
@@ -78,13 +78,15 @@ class G:
             if op in ("~", "!~"):
                 rhs = self.ch(["/" + self.ch(REGEXES) + "/", self.string_lit(self.ch(REGEXES)), self.ch(VARS)])
                 return "%s %s %s" % (self.expr(d - 1), op, rhs)
+            if op in ("/", "%") and self.r.random() < 0.8:
+                return "%s %s %s" % (self.paren(self.expr(d - 1)), op, self.ch(["2", "3", "7", "0.5", "10"]))
             return "%s %s %s" % (self.paren(self.expr(d - 1)), op, self.paren(self.expr(d - 1)))
         if k < 0.56:
             return self.ch(["!", "-", "+"]) + self.paren(self.expr(d - 1))
         if k < 0.62:
-            return self.ch(["++", "--"]) + self.lvalue() if self.r.random() < 0.5 else self.lvalue() + self.ch(["++", "--"])
+            return "(" + (self.ch(["++", "--"]) + self.lvalue() if self.r.random() < 0.5 else self.lvalue() + self.ch(["++", "--"])) + ")"
         if k < 0.70:
-            return "%s %s %s" % (self.lvalue(), self.ch(["=", "=", "+=", "-=", "*=", "/="]), self.expr(d - 1))
+            return "(%s %s %s)" % (self.lvalue(), self.ch(["=", "=", "+=", "-=", "*=", "/="]), self.expr(d - 1))
         if k < 0.80:
             return self.method_call(d)
         if k < 0.84 and self.funcs:
@@ -104,9 +106,24 @@ class G:
         return e
 
     def method_call(self, d):
-        recv = self.ch([self.ch(VARS), self.lvalue(), "[" + ", ".join(self.ch(NUMS + ["'b'", "'a'"]) for _ in range(self.r.randint(0, 4))) + "]",
-                        self.string_lit(), self.ch(NUMS) + " ", "{k: 1, v: 2}"] + (["$"] if self.rule_ctx else []))
-        m = self.ch(ARR_METHODS + STR_METHODS + NUM_METHODS + OBJ_METHODS)
+        # mostly a receiver of the kind the method belongs to (see the BEGIN preamble of program())
+        kind = self.ch(["arr", "arr", "str", "num", "obj"])
+        if self.r.random() < 0.15:
+            recv = self.ch([self.ch(VARS), self.lvalue(), "u", "null", "true"])
+            m = self.ch(ARR_METHODS + STR_METHODS + NUM_METHODS + OBJ_METHODS)
+        elif kind == "arr":
+            recv = self.ch(["arr", "arr", "[" + ", ".join(self.ch(NUMS + ["'b'", "'a'"]) for _ in range(self.r.randint(0, 4))) + "]"]
+                           + (["$"] if self.rule_ctx else []))
+            m = self.ch(ARR_METHODS)
+        elif kind == "str":
+            recv = self.ch(["s", "s", self.string_lit()])
+            m = self.ch(STR_METHODS)
+        elif kind == "num":
+            recv = self.ch(["n", "x", "(" + self.ch(NUMS) + ")", "(x / 3)"])
+            m = self.ch(NUM_METHODS)
+        else:
+            recv = self.ch(["o", "o", "({k: 1, v: 2})"])
+            m = self.ch(OBJ_METHODS)
         if m in ("push", "contains"):
             args = self.expr(d - 1)
         elif m == "split":
@@ -115,9 +132,6 @@ class G:
             args = ", ".join(self.ch(["'k'", "'v'", "'zz'", "'id'"]) for _ in range(self.r.randint(0, 3)))
         else:
             args = "" if self.r.random() < 0.9 else self.expr(1)
-        recv = recv.strip()
-        if recv and recv[0].isdigit():
-            recv = "(" + recv + ")"
         return "%s.%s(%s)" % (recv, m, args)
 
     def pattern(self, d):
@@ -137,16 +151,16 @@ class G:
             if self.r.random() < 0.6:
                 body = self.expr(d - 1)
             else:
-                body = "{ " + self.stmt(d - 1) + " }"
+                body = "{ " + self.term(self.stmt(d - 1)) + " }"
             cases.append("%s => %s" % (pats, body))
-        sep = self.ch([", ", "\n "])
+        sep = ", "   # a newline before a "[" pattern would continue the previous body as an index expression
         return "match (%s) { %s }" % (self.expr(d - 1), sep.join(cases))
 
     # ------------------------------------------------ statements
     def stmt(self, d):
         k = self.r.random()
         if d <= 0 or k < 0.30:
-            return "print " + ", ".join(self.expr(2) for _ in range(self.r.randint(0, 3))).strip()
+            return ("print " + ", ".join(self.expr(2) for _ in range(self.r.randint(1, 3)))) if self.r.random() < 0.9 else "print"
         if k < 0.50:
             return self.expr(2)
         if k < 0.60:
@@ -166,7 +180,7 @@ class G:
         if k < 0.80:
             g = G(self.r, self.funcs, self.in_func, True, self.rule_ctx, self.max_depth)
             v = self.ch(["w", "n"])
-            return "%s = 0\n while (%s < %d) { %s++; %s }" % (v, v, self.r.randint(0, 4), v, g.stmt(d - 1))
+            return "{ %s = 0;\n while (%s < %d) { %s++; %s } }" % (v, v, self.r.randint(0, 4), v, g.term(g.stmt(d - 1)))
         if k < 0.84:
             return "printf(%s%s)" % (self.string_lit(self.ch(["%s|", "%f ", "%v\\n", "%5s|", "%-6v|", "%05f", "x%%y", "%d", "%3", "%"])),
                                      "".join(", " + self.expr(1) for _ in range(self.r.randint(0, 2))))
@@ -179,14 +193,20 @@ class G:
         return "{ " + self.stmts(d - 1, 2) + " }"
 
     def body(self, d):
-        if self.r.random() < 0.6:
-            return "{ " + self.stmts(d, 2) + " }"
-        return self.stmt(d)
+        return "{ " + self.stmts(d, 2) + " }"
+
+    @staticmethod
+    def term(st):
+        """terminate a statement with ';' unless it ends in '}' (a ';' after '}' is a syntax error)"""
+        st = st.rstrip()
+        if st.endswith("}") or st.endswith(";"):
+            return st
+        return st + ";"
 
     def stmts(self, d, n):
         out = []
         for _ in range(self.r.randint(1, n)):
-            out.append(self.stmt(d))
+            out.append(self.term(self.stmt(d)))
         return "\n ".join(out)
 
     # ------------------------------------------------ programs
@@ -212,6 +232,8 @@ class G:
             else:
                 parts.append(body)
         self.r.shuffle(parts)
+        if self.r.random() < 0.8:
+            parts.insert(0, "BEGIN { n = 3; x = 2.5; y = 10; s = 'a,b,c'; arr = [3, 1, 2]; o = ({k: 1, v: [2]}); a = 1; b = 'q'; c = [1] }")
         return "\n".join(parts)
 
 
